@@ -7,7 +7,7 @@ import re
 
 
 # Possible wellbore exceptions.
-well_regex = re.compile(r'\b(wellbore|well)\b', re.IGNORECASE)
+well_regex = re.compile(r'\b(wellbores?|wells?)\b', re.IGNORECASE)
 
 # Possible depth limitations.
 depth_regex = re.compile(
